@@ -103,6 +103,9 @@ def check(ctx):
   from . import c11
   ctx.rule('C11.R3', 'shared with C11: a correlation id is released only by the reply path or for a never-written request (Kafka has no discard message)')
   c11.r2_r3(ctx)
+  from . import c02
+  ctx.rule('C02.R4', 'shared with C02: the Kafka transport inherits the mux receive loop: every response frame is decoded from a stream of its own and routed by the correlation id read from it')
+  c02.r4(ctx)
 
 
 def put_args_rules(ctx):
